@@ -202,6 +202,22 @@ Fixpoint r_name (fuel : nat) (b : bytes) : pres str :=
            if c =? 0 then POk [] r else let* (t, r') := r_name f r in POk (c :: t) r'
   end.
 
+(* "".join(chr(u) for u in units).encode("utf-16-le", "surrogatepass").decode("utf-16-le", "surrogatepass"):
+   a high surrogate followed by a low surrogate becomes one code point, a lone surrogate stays as it is *)
+Definition is_high (u : N) : bool := (55296 <=? u) && (u <=? 56319).     (* D800..DBFF *)
+Definition is_low (u : N) : bool := (56320 <=? u) && (u <=? 57343).      (* DC00..DFFF *)
+Fixpoint join_pairs (l : list N) : str :=
+  match l with
+  | [] => []
+  | h :: r =>
+      match r with
+      | lo :: r' => if is_high h && is_low lo
+                    then (65536 + (h - 55296) * 1024 + (lo - 56320)) :: join_pairs r'
+                    else h :: join_pairs r
+      | [] => [h]
+      end
+  end.
+
 Record facc := { a_empty : list bool; a_names : list str; a_attrs : list N }.
 
 Fixpoint set_attrs (defined : list bool) (old : list N) (vals : bytes) : pres (list N) :=
@@ -218,7 +234,7 @@ Definition files_prop (fuel : nat) (nf : N) (p : N) (acc : facc) (b : bytes) : p
   else if p =? P_NAME then
     let* (ext, r) := r_u8 b in
     if negb (ext =? 0) then PBad else
-    let* (ns, r') := rep fuel nf (r_name fuel) r in POk {| a_empty := a_empty acc; a_names := ns; a_attrs := a_attrs acc |} r'
+    let* (ns, r') := rep fuel nf (r_name fuel) r in POk {| a_empty := a_empty acc; a_names := map join_pairs ns; a_attrs := a_attrs acc |} r'
   else if p =? P_WIN_ATTRIBUTES then
     let* (dv, r) := r_boolvec_def nf b in
     let* (at', r') := set_attrs dv (a_attrs acc) r in POk {| a_empty := a_empty acc; a_names := a_names acc; a_attrs := at' |} r'
